@@ -77,6 +77,23 @@ def run_case(case):
     idx_sets += [list(range(k)) for k in range(1, n + 1, max(1, n // 12))]
     idx_sets += [list(range(k, n)) for k in range(0, n, max(1, n // 12))]
     idx_sets += [list(range(s0, n, st)) for st in (2, 3, n_b, n_o) for s0 in (0, 1) if st > 0 and s0 < n]
+    # numpy-style index subsets: negative row numbers, boolean masks, plain python lists
+    extra_sets = []
+    if n >= 2:
+        extra_sets.append(("negative", np.array([-1, -2, -n, 0, -(n // 2) - 1 if n > 2 else -1])))
+        m1 = np.zeros(n, dtype=bool); m1[::2] = True
+        m2 = np.zeros(n, dtype=bool); m2[-1] = True; m2[n // 3] = True
+        extra_sets += [("mask", m1), ("mask", m2), ("mask", np.ones(n, dtype=bool)), ("list", list(range(n - 1, -1, -3)))]
+    for kind_, a in extra_sets:
+        try:
+            pi_ = np.asarray(fg.get_position_index(a)); qi_ = np.asarray(fg.get_quaternion_index(a))
+        except Exception as e:
+            vs.append(viol(pre + f"|index_{kind_}_raises", f"index helper raised {type(e).__name__} for a {kind_} index", case))
+            continue
+        full = np.arange(n)[a]
+        if not (np.array_equal(pi_, full // n_b) and np.array_equal(qi_, full % n_b)):
+            vs.append(viol(pre + f"|index_helpers_{kind_}", f"index helpers are not (n div n_b, n mod n_b) for a {kind_} index "
+                           "subset", case, expected=(full // n_b).tolist()[:8], observed=pi_.tolist()[:8]))
     count = 0
     for ids in idx_sets:
         count += 1
@@ -133,6 +150,10 @@ def cases(tier):
     rr = [str(F(10 + i, 100)) for i in range(30)]
     for b, o in (("1", "ico_3"), ("cube4D_2", "1"), ("randomQ_3", "cube3D_2")):
         out.append({"b": b, "o": o, "t": "range(0.1, 0.4, 0.01)", "radii_nm": rr})
+    # shells that nearly coincide (relative distance 3e-8 and 2e-6)
+    for b, o in (("1", "ico_5"), ("cube4D_3", "cube3D_4"), ("randomQ_4", "1")):
+        out.append({"b": b, "o": o, "t": "[0.3, 0.30000001, 0.5]", "radii_nm": ["0.3", "0.30000001", "0.5"]})
+        out.append({"b": b, "o": o, "t": "[1, 1.000002, 1.00001]", "radii_nm": ["1", "1.000002", "1.00001"]})
     # one large grid whose position-cell count crosses 2**15 and whose row count crosses 2**16 (index dtype overflow)
     big = [str(F(1, 10) + F(209, 2090) * i) for i in range(210)]
     out.append({"b": "cube4D_2", "o": "ico_162", "t": "linspace(0.1, 21, 210)",
